@@ -211,6 +211,9 @@ pub struct Program {
     /// the verifier side is not compared (the prover side ended with an error a gadget would propagate)
     #[serde(default)]
     pub vskip: bool,
+    /// find out by intervention on the prover's RNG which draw plays which role (C09) and attach the role map to the prove events
+    #[serde(default)]
+    pub roles: bool,
     /// byte-level session: record the encoding as a token stream, tamper on bytes, record what the decoder is given and returns
     #[serde(default)]
     pub bytes: bool,
